@@ -2,7 +2,8 @@
 
 Texts are line lists over the line alphabet {a, b, <empty line>} (thorough: also c), the
 last line with and without its final newline, the empty text included.  For every ordered
-pair (old, new) of texts of <= 4 lines (thorough: <= 5 over 3 symbols and <= 4 over 4)
+pair (old, new) of texts of <= 4 lines (thorough: <= 5 over 3 symbols and <= 4 over 4;
+clauses 5 and 6 then use the smaller bounds given below, in the 4-symbol space 6 uses <= 3)
 and every context size in {0, 1, 3} (thorough: + 2), on the real code:
  1 diff.internal_diff(old, new, context_lines=n) (patiencediff + unified_diff_bytes);
    equal texts give no output;
@@ -325,14 +326,14 @@ def run(ctx):
     contexts = ctx.q((0, 1, 3), (0, 1, 2, 3))
     plimit = ctx.q(3, 4)
     elimit = ctx.q(2, 3)
-    spaces = [(SYM3, ctx.q(4, 5))]
+    # (symbols, max lines, perturbation bound, external-patch bound)
+    spaces = [(SYM3, ctx.q(4, 5), plimit, elimit)]
     if ctx.thorough:
-        spaces.append((SYM4, 4))
+        spaces.append((SYM4, 4, 3, 0))
     items = []
-    seen = set()
-    for symbols, maxlines in spaces:
+    for symbols, maxlines, pl, el in spaces:
         for old in texts(symbols, maxlines):
-            items.append((symbols, maxlines, old, contexts, plimit, elimit))
+            items.append((symbols, maxlines, old, contexts, pl, el))
     # the two spaces overlap (pairs over SYM3 with <= 4 lines are in both): restrict the second to pairs
     # that contain the 4th symbol is not worth the bookkeeping; evaluations are reported as executed.
     a1, a2 = _work(items[:6]), _work(items[:6])
@@ -354,8 +355,9 @@ def run(ctx):
         "external_patch_runs": acc.counters.get("external_patch_runs", 0),
         "distinct_nontrivial": len(acc.nontrivial),
         "rule": "every ordered pair of texts (%s) x contexts %r; non-trivial = the diff has more than one hunk (distinct "
-                "(old, new, context) keys); perturbations for texts <= %d lines, external patch(1) for texts <= %d lines"
-                % ("; ".join("<=%d lines over %d symbols" % (m, len(s)) for s, m in spaces), list(contexts), plimit, elimit),
+                "(old, new, context) keys); perturbations for texts <= %d lines, external patch(1) for texts <= %d lines "
+                "(3-symbol space; in the 4-symbol space perturbations <= 3 lines, no external runs)"
+                % ("; ".join("<=%d lines over %d symbols" % (m, len(s)) for s, m, _, _ in spaces), list(contexts), plimit, elimit),
         "distinct_outcomes": len(acc.outcomes),
         "outcomes": sorted(acc.outcomes, key=repr)[:80],
         "samples": acc.samples[:3],
